@@ -1184,10 +1184,14 @@ impl C08 {
                             else if !d.sg { "bad-sig" } else if d.s.len() < NVALS { "valid-5of6" } else { "valid" }
                         ));
                         let want = n as i128 + op["dwant"].as_i64().unwrap_or(0) as i128;
+                        let block_valid = self.chain.independently_valid(&block);
                         let w = self.world.as_mut().unwrap();
                         // two calls waiting for the same number with different valid blocks race for it: which one
                         // wins is the scheduler's choice, so from here on identities are diagnostics in this case
-                        if w.node.req_blocks.values().any(|x| x.number() == block.number() && x != &block) {
+                        if block_valid
+                            && block.number() >= w.node.manager.queued().next()
+                            && w.node.req_blocks.values().any(|x| x.number() == block.number() && x != &block)
+                        {
                             w.racy = true;
                             out.count("dynamic-racy");
                         }
